@@ -39,7 +39,8 @@ RULE = (
     "(JointDistributionModel of Distributions / MultivariateNormal direct or inside a joint, mean-field or one "
     "full-rank normal over several parameters; plain or exp-transformed variational parameters; "
     "scale_tril / TrilExpDiagonal / covariance / precision), the objective (ELBO Monte-Carlo, analytic entropy, "
-    "multi-sample; VR(alpha); CUBO(n); KLpq) with samples S, [S] or [S,K], the torch seed, an optional "
+    "multi-sample; VR(alpha); CUBO(n); KLpq) with samples S, [S] or [S,K] (entropy=True also together with [S,K], at construction and through "
+    "the override), the torch seed, an optional "
     "`samples=` override for the second request, how each hyper-parameter of the prior / likelihood is written (bare JSON "
     "number, list, or Parameter object; drawn per hyper-parameter) and the process default dtype (float64 as torchtree's main() sets it, or - library use - torch's float32 default "
     "with every Parameter carrying \"dtype\": \"torch.float64\"; restored after the case). Sub-check 'exact' sets q to the closed-form posterior, "
@@ -53,6 +54,10 @@ ASSUMPTIONS = [
     "the variational distribution is always in a documented form (JointDistributionModel of Distributions, "
     "or MultivariateNormal); a bare factorised Distribution as q is outside documented use and not generated",
     "ELBO(score=True) and KLpqImportance return gradient surrogates, not estimates of log Z; not asserted",
+    "ELBO with entropy=True and a two-dimensional sample shape (at construction or through the samples= override) is "
+    "generated; the documentation gives one estimator for [N,K] (the multi-sample ELBO) and no analytic-entropy "
+    "variant of it, so that request must return the multi-sample bound of the draws (log Z at the posterior); a "
+    "one-dimensional request of the same objective must satisfy the analytic-entropy identity",
     "analytic-entropy ELBO is generated only where q is a JointDistributionModel of Distributions or a direct "
     "MultivariateNormal (JointDistributionModel.entropy concatenates per-distribution entropies and cannot "
     "take the 0-d entropy of a nested MultivariateNormal; the CLI never emits that combination)",
@@ -447,7 +452,7 @@ def obj_label(o):
     ss = _sshape(o["samples"])
     if o["type"] == "ELBO":
         if len(ss) == 2:
-            return "ELBO-multi"
+            return "ELBO-multi-entropy" if o.get("entropy") else "ELBO-multi"
         return "ELBO-entropy" if o.get("entropy") else "ELBO"
     return o["type"]
 
@@ -594,6 +599,9 @@ def _body(c):
         obj_now = dict(o, samples=ss)
         two = len(ss) == 2
         if obj_now.get("entropy") and two:
+            # documented: "2 dimensions [N,K]: multi sample ELBO"; no analytic-entropy variant of the
+            # importance-weighted bound is documented, so the only admissible value of a two-dimensional
+            # request is the multi-sample bound of the draws (= log Z at the posterior), entropy flag or not
             obj_now.pop("entropy")
         cands = cj.objective_candidates(obj_now, lp, lq, H)
         if c.get("f32") and o["type"] == "CUBO":
@@ -745,7 +753,7 @@ def objective(draw, can_entropy):
     else:
         samples = [S, draw(st.integers(1, 5))]
     o = {"type": t, "samples": samples}
-    if t == "ELBO" and form != "list2" and can_entropy and draw(st.booleans()):
+    if t == "ELBO" and can_entropy and draw(st.booleans()):
         o["entropy"] = True
     if t == "VR" and draw(st.integers(0, 4)) > 0:
         o["alpha"] = draw(st.one_of(fl(-2.0, 0.95), fl(1.05, 3.0), st.sampled_from([0.0, 0.5, 2.0])))
@@ -788,7 +796,7 @@ def cases(mode):
         can_entropy = (not has_mvn) or c["q_form"] == "direct"
         c["objective"] = draw(objective(can_entropy))
         if draw(st.integers(0, 2)) == 0:
-            two = draw(st.booleans()) and not c["objective"].get("entropy")
+            two = draw(st.booleans())
             c["override"] = [draw(st.integers(1, 6))] + ([draw(st.integers(1, 4))] if two else [])
         return c
 
@@ -821,8 +829,6 @@ def grid(tier):
         for route in ROUTES[k]:
             for o in _OBJS:
                 for sh in _SHAPES:
-                    if o.get("entropy") and isinstance(sh, list) and len(sh) == 2:
-                        continue
                     for mode in ("posterior", "perturbed"):
                         b = dict(_FIXED[k], kind=k, route=route)
                         if k in GAMMA and route in ("prior_affine", "unres_affine"):
@@ -838,7 +844,7 @@ def grid(tier):
                         c = {"mode": mode, "torch_seed": 1000 + i, "blocks": [b], "joint_style": ("flat", "jacobian", "prior_like")[i % 3],
                              "q_form": "direct" if k == "mvn" and i % 2 else "joint", "q_exp": bool(i % 2), "q_inline": bool((i // 2) % 2),
                              "objective": dict(o, samples=sh)}
-                        if i % 5 == 0 and not o.get("entropy"):
+                        if i % 5 == 0:
                             c["override"] = [2, 2] if i % 10 == 0 else [3]
                         if k == "mvn":
                             c["q_par"] = ("scale_tril", "scale_tril_unres", "covariance_matrix", "precision_matrix")[i % 4]
@@ -860,6 +866,7 @@ _FIXED_NR = {
             "data": [[0.5, 1.1], [1.5, -1.0], [0.0, 0.2]], "prior_par": "covariance_matrix"},
 }
 _OBJS_DT = [{"type": "ELBO", "samples": 4}, {"type": "ELBO", "samples": 3, "entropy": True}, {"type": "ELBO", "samples": [3, 4]},
+            {"type": "ELBO", "samples": [2, 5], "entropy": True},
             {"type": "ELBO", "samples": [2, 3]}, {"type": "VR", "samples": [5], "alpha": 0.3}, {"type": "VR", "samples": [2, 3], "alpha": 2.0},
             {"type": "CUBO", "samples": 4, "n": 2.7}, {"type": "KLpq", "samples": 6}]
 
@@ -891,7 +898,7 @@ def dtype_grid(tier):
                                  "objective": dict(o)}
                             if k == "mvn":
                                 c["q_par"] = ("scale_tril", "scale_tril_unres", "covariance_matrix", "precision_matrix")[i % 4]
-                            if i % 4 == 0 and not o.get("entropy"):
+                            if i % 4 == 0:
                                 c["override"] = [2, 3]
                             out.append(c)
     return out
